@@ -18,6 +18,7 @@ CLAUSE_PROPS = {
     'foreign.': ('C03',),
     'clean.': ('C12',),
     'cache.': ('C16',),
+    'cachecmp.': ('C13',),
     'effect.': ('C05',),
     'contract.': ('C10',),
 }
